@@ -8,7 +8,7 @@
    plinio/methods/mps/nn/qtz.py, plinio/methods/supernet/nn/combiner.py   (sampling options)
 
    The flag [v0] selects the pinned upstream behaviour (true) or the repaired one (false):
-   - upstream the frozen masks are nn.Parameters that the frozen maskers' setters protect, but
+   - upstream the frozen masks are registered as trainable tensors that the frozen maskers' setters protect, but
      DNAS.train_* write requires_grad directly over nas_parameters(); repaired: the frozen maskers keep
      their mask as a registered buffer, so it is not a parameter at all;
    - upstream MPSBaseQtz.update_softmax_options re-chooses the sampler from its (possibly None)
